@@ -1,2 +1,235 @@
+import FpgoVerif.Proofs.C02Int
 import FpgoVerif.Model.C02
-/-! Property theorems for C02 (none yet). -/
+import FpgoVerif.Proofs.C02Float
+import FpgoVerif.Proofs.C02Misc
+import FpgoVerif.Proofs.C02ToFloat
+import FpgoVerif.Proofs.C02Comp
+import FpgoVerif.Proofs.C02Str
+/-! Property theorems for C02 — "Maybe numeric conversions are value-preserving or fail; never silently wrap".
+
+    All theorems are about `convGo` = the evaluator `conv` applied to `Gen.convTable`, the table the
+    extractor regenerates from `maybe.go` on every run — the very function the driver executes in the
+    correspondence.  `specOK` (Model/C02.lean) is the property's statement, clause by clause; `judge`
+    evaluates the same `specOK` on the real code's observations. -/
+namespace FpgoVerif.C02
+
+/-! ### the regenerated table has the expected inventory -/
+
+/-- The 14 conversion methods with their own type switch (and `ToUint8` delegating to `ToByte`) are exactly
+    the ones the model, the harness and the property talk about. -/
+theorem C02_table_methods :
+    Gen.convMethods = [("ToFloat64", .float64), ("ToFloat32", .float32), ("ToInt", .int), ("ToInt8", .int8),
+      ("ToInt16", .int16), ("ToInt32", .int32), ("ToInt64", .int64), ("ToByte", .uint8), ("ToUint", .uint),
+      ("ToUint16", .uint16), ("ToUint32", .uint32), ("ToUint64", .uint64), ("ToUintptr", .uintptr), ("ToBool", .bool)]
+    ∧ Gen.convAliases = [("ToUint8", "ToByte")] := by decide +kernel
+
+/-! ### integer → integer (121 cells) -/
+
+/-- Closing theorem over the regenerated table: every (integer target, integer source) cell passes the
+    reflective interval checker. -/
+theorem C02_table_int :
+    intTys.all (fun tgt => intTys.all (fun src => intCellOK Gen.convTable tgt src)) = true := by decide +kernel
+
+/-- Clauses (a), (b), (c) for every integer target, every integer source type and EVERY value of that type. -/
+theorem C02_int_to_int (tgt src : Ty) (ht : tgt ∈ intTys) (hs : src ∈ intTys) (lo hi z : Int)
+    (hr : src.range = some (lo, hi)) (h1 : lo ≤ z) (h2 : z ≤ hi) :
+    specOK tgt (.ty src) (.i z) (convGo tgt (.ty src) (.i z)) = true := by
+  have hall := C02_table_int
+  rw [List.all_eq_true] at hall
+  have h' := hall tgt ht
+  rw [List.all_eq_true] at h'
+  have hc := h' src hs
+  have := intBodyOK_sound goStrconv Gen.convTable 4 tgt src lo hi hr hc z h1 h2
+  cases src <;> simpa [specOK, convGo, convFuel] using this
+
+/-! ### float → integer -/
+
+/-- integer targets whose float clauses are direct (guard + `math.Round` + cast); `ToUintptr` goes through `ToUint64` -/
+def fltDirectTgts : List Ty := [.int, .int8, .int16, .int32, .int64, .uint, .uint8, .uint16, .uint32, .uint64]
+
+def fltCellOK (tbl : List Case) (tgt : Ty) (is32 : Bool) : Bool :=
+  fltBodyOK tbl tgt is32 (lookup tbl tgt (.ty (fltSrc is32)))
+
+/-- Closing theorem over the regenerated table: every (integer target, float32/float64) cell has a two-sided guard
+    whose bounds — after Go's rounding of the constants to the float type — lie inside the target range and
+    contain the must-succeed range. -/
+theorem C02_table_float_to_int :
+    fltDirectTgts.all (fun tgt => fltCellOK Gen.convTable tgt true && fltCellOK Gen.convTable tgt false) = true := by
+  decide +kernel
+
+/-- Clauses (a), (b), (c) for every float32 (`is32`) / float64 value `x` — NaN, ±Inf, ±0, denormals included —
+    and every integer target except `uintptr`.  `x.wf` holds for every decoded bit pattern (`decode_wf`). -/
+theorem C02_float_to_int (tgt : Ty) (ht : tgt ∈ fltDirectTgts) (is32 : Bool) (x : FVal) (hw : x.wf (fltP is32)) :
+    specOK tgt (.ty (fltSrc is32)) (mkF is32 x) (convGo tgt (.ty (fltSrc is32)) (mkF is32 x)) = true := by
+  have hall := C02_table_float_to_int
+  rw [List.all_eq_true] at hall
+  have hc := hall tgt ht
+  simp only [Bool.and_eq_true] at hc
+  have hcell : fltBodyOK Gen.convTable tgt is32 (lookup Gen.convTable tgt (.ty (fltSrc is32))) = true := by
+    cases is32
+    · exact hc.2
+    · exact hc.1
+  have := fltBodyOK_sound goStrconv Gen.convTable 4 tgt is32 hcell x hw
+  cases is32 <;> simpa [specOK, convGo, convFuel, fltSrc, mkF] using this
+
+/-- … in particular for every IEEE bit pattern. -/
+theorem C02_float64_bits_to_int (tgt : Ty) (ht : tgt ∈ fltDirectTgts) (bits : Nat) :
+    specOK tgt (.ty .float64) (.f64 (decode f64 bits)) (convGo tgt (.ty .float64) (.f64 (decode f64 bits))) = true :=
+  C02_float_to_int tgt ht false (decode f64 bits) (decode_wf f64 (by decide) bits)
+
+theorem C02_float32_bits_to_int (tgt : Ty) (ht : tgt ∈ fltDirectTgts) (bits : Nat) :
+    specOK tgt (.ty .float32) (.f32 (decode f32 bits)) (convGo tgt (.ty .float32) (.f32 (decode f32 bits))) = true :=
+  C02_float_to_int tgt ht true (decode f32 bits) (decode_wf f32 (by decide) bits)
+
+/-- Closing theorem for `ToUintptr` ← float32/float64: the clause calls `ToUint64` (whose float clauses pass
+    the checker above) and narrows the result with an integer guard that passes the interval checker. -/
+theorem C02_table_float_to_uintptr :
+    (compBodyOK Gen.convTable .uintptr true (lookup Gen.convTable .uintptr (.ty .float32)) &&
+     compBodyOK Gen.convTable .uintptr false (lookup Gen.convTable .uintptr (.ty .float64))) = true := by decide +kernel
+
+/-- Clauses (a), (b), (c) for `ToUintptr` of every float32 / float64 value. -/
+theorem C02_float_to_uintptr (is32 : Bool) (x : FVal) (hw : x.wf (fltP is32)) :
+    specOK .uintptr (.ty (fltSrc is32)) (mkF is32 x) (convGo .uintptr (.ty (fltSrc is32)) (mkF is32 x)) = true := by
+  have hc := C02_table_float_to_uintptr
+  simp only [Bool.and_eq_true] at hc
+  have hcell : compBodyOK Gen.convTable .uintptr is32 (lookup Gen.convTable .uintptr (.ty (fltSrc is32))) = true := by
+    cases is32
+    · exact hc.2
+    · exact hc.1
+  have := compBodyOK_sound goStrconv Gen.convTable 3 .uintptr is32 hcell x hw
+  cases is32 <;> simpa [specOK, convGo, convFuel, fltSrc, mkF] using this
+
+-- 2^63 as a float64 is rejected by ToInt64 (the pinned code accepted it and returned MinInt64)
+example : convGo .int64 (.ty .float64) (.f64 (.fin false 9223372036854775808 0)) = ⟨.i 0, .overflow⟩ := by decide +kernel
+example : convGo .int32 (.ty .float64) (.f64 (.fin false 5 1)) = ⟨.i 3, .ok⟩ := by decide +kernel
+example : (FVal.fin false 5 1).wf 53 := by simp [FVal.wf]
+
+/-! ### integer → float -/
+
+/-- Closing theorem: every (float target, integer source) clause is `val, err := To<S>(); return T(val), err`. -/
+theorem C02_table_int_to_float :
+    [Ty.float32, .float64].all (fun tgt => intTys.all (fun src =>
+      toFloatBodyOK Gen.convTable tgt src (lookup Gen.convTable tgt (.ty src)))) = true := by decide +kernel
+
+/-- Every integer of every integer type converts to float32 / float64 successfully, to the nearest representable
+    value (`ofInt f z`: round to nearest, ties to even), which is always finite. -/
+theorem C02_int_to_float (tgt : Ty) (f : Fmt) (hf : (tgt = .float32 ∧ f = f32) ∨ (tgt = .float64 ∧ f = f64))
+    (src : Ty) (hs : src ∈ intTys) (lo hi z : Int) (hr : src.range = some (lo, hi)) (h1 : lo ≤ z) (h2 : z ≤ hi) :
+    convGo tgt (.ty src) (.i z) = ⟨castTo tgt (.i z), .ok⟩ ∧
+    specOK tgt (.ty src) (.i z) (convGo tgt (.ty src) (.i z)) = true := by
+  have hall := C02_table_int_to_float
+  rw [List.all_eq_true] at hall
+  have h' := hall tgt (by rcases hf with ⟨rfl, _⟩ | ⟨rfl, _⟩ <;> simp)
+  rw [List.all_eq_true] at h'
+  have hc := h' src hs
+  obtain ⟨e, sp⟩ := toFloatBodyOK_sound goStrconv Gen.convTable 4 tgt src f hf lo hi z hr h1 h2 hc
+  have e' : convGo tgt (.ty src) (.i z) = ⟨castTo tgt (.i z), .ok⟩ := e
+  refine ⟨e', ?_⟩
+  rw [e']
+  cases src <;> simpa [specOK] using sp
+
+-- 2^24 + 1 is a tie between two float32 values and goes to the even one; 2^63 - 1 becomes 2^63
+example : convGo .float32 (.ty .int32) (.i 16777217) = ⟨.f32 (.fin false 16777216 0), .ok⟩ := by decide +kernel
+example : convGo .float64 (.ty .int64) (.i 9223372036854775807) = ⟨.f64 (.fin false 9223372036854775808 0), .ok⟩ := by
+  decide +kernel
+
+/-! ### string → integer -/
+
+/-- integer targets whose string clause is `strconv.ParseInt/ParseUint/Atoi` + cast (ToUintptr adds a guard) -/
+def strDirectTgts : List Ty := [.int, .int8, .int16, .int32, .int64, .uint, .uint8, .uint16, .uint32, .uint64]
+
+/-- Closing theorem: the string clause of every such method parses with the signedness of the target and a bitSize
+    whose range lies inside the target's range and contains the must-succeed range. -/
+theorem C02_table_string_to_int :
+    strDirectTgts.all (fun tgt => strIntBodyOK tgt (lookup Gen.convTable tgt (.ty .string))) = true := by decide +kernel
+
+/-- Clauses (a), (b), (c) for EVERY string `w` (numeric or not), with `strconv` as modelled by `goStrconv`:
+    a nil error means `w` is an integer numeral and the result is its value; a canonical numeral that fits converts;
+    "-1" → unsigned, "300" → int8, "1.5", "abc" fail. -/
+theorem C02_string_to_int (tgt : Ty) (ht : tgt ∈ strDirectTgts) (w : String) :
+    specOK tgt (.ty .string) (.s w) (convGo tgt (.ty .string) (.s w)) = true := by
+  have hall := C02_table_string_to_int
+  rw [List.all_eq_true] at hall
+  have := strIntBodyOK_sound Gen.convTable 5 tgt w (hall tgt ht)
+  simpa [specOK, convGo, convFuel] using this
+
+example : convGo .uint8 (.ty .string) (.s "200") = ⟨.i 200, .ok⟩ := by decide +kernel
+example : (convGo .uint8 (.ty .string) (.s "-1")).err = .other := by decide +kernel
+
+/-! ### absent values, unsupported kinds, bool sources, ToBool -/
+
+/-- Closing theorem: every method starts with the `IsNil` prelude returning `ErrConversionNil`, its `default`
+    clause returns `ErrConversionUnsupported`, and every `ToBool` clause of a numeric type is `val != 0`. -/
+theorem C02_table_misc :
+    allTgts.all (fun tgt => errRowOK Gen.convTable tgt .nil .nilErr && errRowOK Gen.convTable tgt .dflt .unsupported) = true
+    ∧ numTys.all (fun src => toBoolBodyOK Gen.convTable src (lookup Gen.convTable .bool (.ty src))) = true := by
+  decide +kernel
+
+/-- Unsupported kinds (whatever reaches the `default` clause) fail with `ErrConversionUnsupported`. -/
+theorem C02_unsupported (tgt : Ty) (ht : tgt ∈ allTgts) (x : Val) :
+    (convGo tgt .dflt x).err = .unsupported ∧ specOK tgt .dflt x (convGo tgt .dflt x) = true := by
+  have hall := C02_table_misc.1
+  rw [List.all_eq_true] at hall
+  have h := hall tgt ht
+  simp only [Bool.and_eq_true] at h
+  have this : (convGo tgt .dflt x).err = .unsupported :=
+    errRow_sound goStrconv Gen.convTable 5 tgt .dflt .unsupported x h.2
+  exact ⟨this, by simp [specOK, this]⟩
+
+/-- An absent value fails with `ErrConversionNil`. -/
+theorem C02_nil (tgt : Ty) (ht : tgt ∈ allTgts) (x : Val) :
+    (convGo tgt .nil x).err = .nilE ∧ specOK tgt .nil x (convGo tgt .nil x) = true := by
+  have hall := C02_table_misc.1
+  rw [List.all_eq_true] at hall
+  have h := hall tgt ht
+  simp only [Bool.and_eq_true] at h
+  have this : (convGo tgt .nil x).err = .nilE :=
+    errRow_sound goStrconv Gen.convTable 5 tgt .nil .nilErr x h.1
+  exact ⟨this, by simp [specOK, this]⟩
+
+/-- `ToBool` of an integer is exactly `z != 0` (never an error). -/
+theorem C02_toBool_int (src : Ty) (hs : src ∈ intTys) (z : Int) :
+    convGo .bool (.ty src) (.i z) = ⟨.b (decide (z ≠ 0)), .ok⟩ ∧
+    specOK .bool (.ty src) (.i z) (convGo .bool (.ty src) (.i z)) = true := by
+  have hall := C02_table_misc.2
+  rw [List.all_eq_true] at hall
+  have h := hall src (by simp [numTys]; exact Or.inl hs)
+  have e := toBoolBodyOK_sound goStrconv Gen.convTable 4 src (.i z) h
+  have e' : convGo .bool (.ty src) (.i z) = ⟨.b (decide (z ≠ 0)), .ok⟩ := by
+    simpa [convGo, convFuel, evalE] using e
+  refine ⟨e', ?_⟩
+  rw [e']
+  cases src <;> simp [specOK, specNum, Ty.range, Ty.must, Ty.fmt]
+
+/-- `ToBool` of a float is exactly `x != 0`: true for NaN and ±Inf, false for ±0. -/
+theorem C02_toBool_float (is32 : Bool) (x : FVal) :
+    convGo .bool (.ty (fltSrc is32)) (mkF is32 x) = ⟨.b x.ne0, .ok⟩ ∧
+    specOK .bool (.ty (fltSrc is32)) (mkF is32 x) (convGo .bool (.ty (fltSrc is32)) (mkF is32 x)) = true := by
+  have hall := C02_table_misc.2
+  rw [List.all_eq_true] at hall
+  have h := hall (fltSrc is32) (by cases is32 <;> simp [numTys, fltSrc])
+  have e := toBoolBodyOK_sound goStrconv Gen.convTable 4 (fltSrc is32) (mkF is32 x) h
+  have e' : convGo .bool (.ty (fltSrc is32)) (mkF is32 x) = ⟨.b x.ne0, .ok⟩ := by
+    cases is32 <;> simpa [convGo, convFuel, evalE, mkF] using e
+  refine ⟨e', ?_⟩
+  rw [e']
+  cases is32 <;> simp [specOK, specNum, Ty.range, Ty.must, Ty.fmt, fltSrc, mkF]
+
+/-- A wrapped bool converts to 1 / 0 (1.0 / 0.0, itself) with every method: both values × all 14 methods,
+    by complete enumeration. -/
+theorem C02_bool_source (tgt : Ty) (ht : tgt ∈ allTgts) (b : Bool) :
+    specOK tgt (.ty .bool) (.b b) (convGo tgt (.ty .bool) (.b b)) = true := by
+  have h : allTgts.all (fun tgt => [true, false].all (fun b =>
+      specOK tgt (.ty .bool) (.b b) (convGo tgt (.ty .bool) (.b b)))) = true := by decide +kernel
+  rw [List.all_eq_true] at h
+  have h' := h tgt ht
+  rw [List.all_eq_true] at h'
+  exact h' b (by cases b <;> simp)
+
+example : convGo .float32 (.ty .bool) (.b true) = ⟨.f32 (.fin false 1 0), .ok⟩ := by decide +kernel
+
+example : specOK .uint8 (.ty .int8) (.i (-1)) (convGo .uint8 (.ty .int8) (.i (-1))) = true := by decide +kernel
+example : convGo .uint8 (.ty .int8) (.i (-1)) = ⟨.i 0, .overflow⟩ := by decide +kernel
+example : convGo .int16 (.ty .uint64) (.i 32767) = ⟨.i 32767, .ok⟩ := by decide +kernel
+
+end FpgoVerif.C02
